@@ -14,6 +14,7 @@
 //   data::Rates::mask           uint32 word  23 opt bits (highest: mass_gas = 1 << 22)             has / get
 //   Events::m_events            uint64 word  22 ScheduleEvents bits                                hasEvent(1 << i)
 //   MechBCValue::fixeddir       array<bool,3>                                                       the three flags
+//   data::QuantityCollection::has_  unsigned char word (3 / 5 / 6 items)                           has / get
 //
 // Each is built through the real input path where one exists (deck text -> Parser -> constructor) and through the
 // setters otherwise: every flag alone, all together, all but one, random subsets.  The round-trip predicate is
@@ -248,12 +249,29 @@ inline void probeOutputFlags(vh::Rng& r, vh::PropLog& plog, std::map<std::string
     }
 }
 
+// data::QuantityCollection<Items>: an unsigned char mask `has_` beside the values (segment phase quantities 3 bits,
+// densities 5, well control limits 6): every subset
+template <class QC> void probeQuantity(const char* key, vh::Rng& r, vh::PropLog& plog, std::map<std::string, long>& stats) {
+    using Item = typename QC::Item;
+    constexpr unsigned n = static_cast<unsigned>(Item::NumItems);
+    for (unsigned m = 0; m < (1u << n); ++m) {
+        QC q;
+        for (unsigned i = 0; i < n; ++i) if ((m >> i) & 1u) { q.set(static_cast<Item>(i), so::rndVal(r)); stats[std::string("flags.") + key + ".bit" + std::to_string(i)]++; }
+        roundTrip<QC>(key, "mask " + std::to_string(m), q, plog, stats,
+            [](const QC& x) { Dump d; for (unsigned i = 0; i < n; ++i) { const auto it = static_cast<Item>(i); d.kv("has." + std::to_string(i), x.has(it)); if (x.has(it)) d.kv("get." + std::to_string(i), x.get(it)); } return d.str(); },
+            [](const QC& a, const QC& b, std::string&) { return a == b; }, EXACT);
+    }
+}
+
 inline void probeFlagWords(vh::Rng& r, vh::PropLog& plog, std::map<std::string, long>& stats, bool thorough) {
     probeFip(r, plog, stats, thorough);
     probeFipEclipseState(r, plog, stats, thorough ? 20 : 2);
     probePhases(r, plog, stats, thorough);
     probeEndscale(plog, stats);
     probeOutputFlags(r, plog, stats, thorough);
+    probeQuantity<Opm::data::SegmentPhaseQuantity>("segmentphasequantity", r, plog, stats);
+    probeQuantity<Opm::data::SegmentPhaseDensity>("segmentphasedensity", r, plog, stats);
+    probeQuantity<Opm::data::WellControlLimits>("wellcontrollimits", r, plog, stats);
 }
 
 } // namespace sf
